@@ -32,12 +32,17 @@ fn fn_text(name: &str) -> &'static str {
 		"skipA" => "function(x) if x == 'a' then null else x",
 		"twice" => "function(x) x * 2",
 		"lit" => "function(x) 'k'",
+		"arr1" => "function(x) [1]",
 		// binary
 		"pair" => "function(a, b) [a, b]",
 		"snoc" => "function(a, b) if std.isArray(a) then a + [b] else error 'e'",
 		"cons" => "function(a, b) if std.isArray(b) then [a] + b else error 'e'",
 		"add" => "function(a, b) if ((std.isNumber(a) || std.isString(a)) && (std.isNumber(b) || std.isString(b))) || (std.isArray(a) && std.isArray(b)) then a + b else error 'e'",
 		"fst" => "function(a, b) a",
+		"snd" => "function(a, b) b",
+		"inc1" => "function(a, b) if std.isNumber(a) then a + 1 else error 'e'",
+		"inc2" => "function(a, b) if std.isNumber(b) then b + 1 else error 'e'",
+		"const7" => "function(a, b) 7",
 		_ => panic!("unknown pool function {name}"),
 	}
 }
@@ -920,13 +925,18 @@ pub fn run(opts: &Opts) {
 				g.emit_lazy("find", vec![p.clone(), arr.clone()], None, None);
 				g.emit_lazy("count", vec![arr.clone(), p.clone()], None, None);
 			}
-			for f in ["add", "fst", "snoc"] {
+			// callbacks that use both arguments (add), only the running value (fst/inc1 for foldl,
+			// snd/inc2 for foldr), only the element (snd / fst), neither (const7), or store an argument
+			// unevaluated in an array (snoc, cons, pair); `init` may fail as well
+			for f in ["add", "fst", "snoc", "inc1", "snd", "const7", "pair"] {
 				g.emit_lazy("foldl", vec![arr.clone(), json!(0)], Some(f), None);
 				g.emit_lazy("foldl", vec![arr.clone(), json!([])], Some(f), None);
+				g.emit_lazy("foldl", vec![arr.clone(), err.clone()], Some(f), None);
 			}
-			for f in ["add", "cons", "pair"] {
+			for f in ["add", "cons", "pair", "snd", "inc2", "fst", "const7"] {
 				g.emit_lazy("foldr", vec![arr.clone(), json!(0)], Some(f), None);
 				g.emit_lazy("foldr", vec![arr.clone(), json!([])], Some(f), None);
+				g.emit_lazy("foldr", vec![arr.clone(), err.clone()], Some(f), None);
 			}
 			for f in ["true", "pos", "isNum", "eq1", "const0", "failOnStr"] {
 				g.emit_lazy("filter", vec![arr.clone()], Some(f), None);
@@ -940,7 +950,7 @@ pub fn run(opts: &Opts) {
 			for f in ["fst", "pair", "add"] {
 				g.emit_lazy("mapWithIndex", vec![arr.clone()], Some(f), None);
 			}
-			for f in ["dup", "numOrNull", "wrap"] {
+			for f in ["dup", "numOrNull", "wrap", "arr1", "const0", "inc"] {
 				g.emit_lazy("flatMap", vec![arr.clone()], Some(f), None);
 			}
 			g.emit_lazy("sum", vec![arr.clone()], None, None);
@@ -955,6 +965,37 @@ pub fn run(opts: &Opts) {
 				g.emit_lazy(fname, vec![arr.clone(), json!("dflt")], None, None);
 			}
 		}
+		// strings are folded character by character: only `init` can be lazy there
+		for sv in [json!(""), json!("a"), json!("ab")] {
+			for f in ["add", "fst", "snd", "const7", "pair"] {
+				for init in [json!(""), err.clone()] {
+					g.emit_lazy("foldl", vec![sv.clone(), init.clone()], Some(f), None);
+					g.emit_lazy("foldr", vec![sv.clone(), init], Some(f), None);
+				}
+			}
+		}
+		// std.join with an array separator: the joined arrays and the separator keep their elements lazy
+		let item_pool = [json!([1]), json!([err.clone()]), json!([]), json!(null), json!([2, err.clone()]), json!(3), err.clone()];
+		for items in all_arrays(&item_pool, if thorough { 3 } else { 2 }) {
+			for sep in [json!([]), json!([0]), json!([err.clone()]), json!([0, err.clone()])] {
+				g.emit_lazy("join", vec![sep, items.clone()], None, None);
+			}
+		}
+		// set operations: the key function is called only on elements that are compared
+		let set_pool = [json!(1), json!(2), json!(3), err.clone()];
+		let sides = all_arrays(&set_pool, 2);
+		for kf in [None, Some("neg"), Some("const0"), Some("failOnStr")] {
+			for a in &sides {
+				for b in &sides {
+					for fname in ["setUnion", "setInter", "setDiff"] {
+						g.emit_lazy(fname, vec![a.clone(), b.clone()], kf, None);
+					}
+				}
+				for x in [json!(1), json!(2), err.clone()] {
+					g.emit_lazy("setMember", vec![x, a.clone()], kf, None);
+				}
+			}
+		}
 	}
 
 	let meta = json!({
@@ -964,7 +1005,7 @@ pub fn run(opts: &Opts) {
 		"outcomes": g.outcome,
 		"first_array_arg_length_hist": g.len_hist,
 		"argument_kinds": g.kind,
-		"rule": "std.<fn>(args) evaluated from source by the real evaluator for 40 functions: exhaustive arrays over {0,1,2,-1} (len<=4 quick, all key functions; len 5 for 4 keys), over {'a','b',''} (len<=3), over number arrays, over objects, plus seeded mixed-type arrays with duplicates/nesting (len<=6 quick/8 thorough); set operations on all pairs of subsets of 5 numbers / 4 strings / 4 arrays / 3 objects under matching key functions plus arbitrary (non-set) pairs; removeAt at every index -3..len+3 and the i32 extremes; slice over all index pairs -3..len+3 x steps; key/predicate/fold functions from a named pool of 26 (identity, total, partial, type-changing, non-injective); round 3: 53 arrays produced by other builtins (range, stepped slices of range/literal/sorted/mapped/filtered/repeated/reversed/bytes/chars arrays, nested slices, extended) fed to every function, and arrays with failing elements (error 'x') with an element-wise dump to observe which elements each loop forces"
+		"rule": "std.<fn>(args) evaluated from source by the real evaluator for 40 functions: exhaustive arrays over {0,1,2,-1} (len<=4 quick, all key functions; len 5 for 4 keys), over {'a','b',''} (len<=3), over number arrays, over objects, plus seeded mixed-type arrays with duplicates/nesting (len<=6 quick/8 thorough); set operations on all pairs of subsets of 5 numbers / 4 strings / 4 arrays / 3 objects under matching key functions plus arbitrary (non-set) pairs; removeAt at every index -3..len+3 and the i32 extremes; slice over all index pairs -3..len+3 x steps; key/predicate/fold functions from a named pool of 31 (identity, total, partial, type-changing, non-injective); round 3: 53 arrays produced by other builtins (range, stepped slices of range/literal/sorted/mapped/filtered/repeated/reversed/bytes/chars arrays, nested slices, extended) fed to every function, and arrays with failing elements (error 'x') with an element-wise dump to observe which elements each loop forces; round 4: fold callbacks that ignore the element / the running value / both or store them unevaluated, failing `init`, flatMap callbacks that ignore the element, std.join with an array separator over arrays with failing elements, set operations and setMember over arrays with failing elements under forcing and non-forcing key functions"
 	});
 	let Gen { w, .. } = g;
 	w.finish(meta, &opts.out);
